@@ -250,6 +250,28 @@ impl<'a> World<'a> {
             }
         }
 
+        // 3b. a status refresh (it stops nothing) does not record a service as not running while the very process it
+        //     was recorded with is alive. Excused: a pid lookup that failed (the recorded finding about pid-lookup
+        //     errors is reported by the stop/remove rules), a process that died and came back during the invocation.
+        if matches!(step, Step::Status { .. }) && pid_lookup_failed == "no" {
+            for e in &post_e {
+                let Some(p) = pre_e.get(e.idx) else { continue };
+                if p.status != "Running" || e.status == "Running" || e.status == "Removed" {
+                    continue;
+                }
+                let live = self.os.lock().procs.get(&PathBuf::from(&e.bin)).map(|pr| pr.pid as u64);
+                if live.is_some() && live == p.pid && !self.mid_deaths.contains_key(&e.bin) {
+                    self.viol(
+                        "status.live_service_recorded_not_running",
+                        &[("failing_call", failing.clone()), ("result", res.clone())],
+                        format!("{} was recorded Running with pid {:?}; its process is alive with that pid, yet after `status` ({res}) the registry records {} with pid {:?}", e.name, p.pid, e.status, e.pid),
+                        false,
+                    );
+                    return;
+                }
+            }
+        }
+
         // 4. per-service results
         let do_not_start = matches!(step, Step::Upgrade { do_not_start: true, .. });
         for (name, idx, r) in &out.per {
